@@ -43,8 +43,9 @@ DirectMap == LET L == SyncLines("direct") IN
   [p \in {Rec[i].key : i \in L} |-> CHOOSE i \in L : Rec[i].key = p]
 Objs == {"mon", "mgr"}
 NoConf == [r \in Roles |-> None]
-\* the recorded finding "claim of the funding output lost on rewind" is waived (KNOWN_FINDINGS)
-WaiveFundingClaim == "C11_WAIVE" \in DOMAIN IOEnv /\ IOEnv.C11_WAIVE = "1"
+\* the recorded finding "pending claims lost on rewind" is waived (KNOWN_FINDINGS): a schedule other than
+\* the canonical one may then lack claims that the canonical delivery still has
+WaiveLostClaims == "C11_WAIVE" \in DOMAIN IOEnv /\ IOEnv.C11_WAIVE = "1"
 
 AllGood == [hist |-> TRUE, best |-> TRUE, funding |-> TRUE, closed |-> TRUE, relevant |-> TRUE,
             remembers |-> TRUE, irrev |-> TRUE, aBal |-> TRUE, aRel |-> TRUE, aClaims |-> TRUE,
@@ -139,14 +140,11 @@ TNote ==
   /\ Same /\ UNCHANGED <<target, tp, cf, ifc, gv, phase, reloaded, v>>
 
 \* ---- judging a synchronisation point
-FundingIdx == IF fundingRole THEN 1 ELSE 5
 ConfirmedTx(t) == (t \in Roles /\ Place(t, target) # None) \/ (t = 5 /\ ~fundingRole)
 SpentInChain(op) == \E r \in Roles : Place(r, target) # None /\ \E i \in 1..Len(inputs[r]) : inputs[r][i] = op
 \* a claim (sequence of <<tx, vout>>) that can still confirm on the best chain
 Live(sig) == \A i \in 1..Len(sig) : ConfirmedTx(sig[i][1]) /\ ~SpentInChain(sig[i])
-SpendsFunding(sig) == \E i \in 1..Len(sig) : sig[i] = <<FundingIdx, 0>>
 LiveOf(s) == SelectSeq(s, Live)
-LiveNoFunding(s) == SelectSeq(s, LAMBDA g : Live(g) /\ ~SpendsFunding(g))
 Pairs(rel) == {<<rel[i][1], rel[i][2]>> : i \in 1..Len(rel)}
 
 \* a role that was final is still where it was but with fewer confirmations than ARD now
@@ -163,14 +161,14 @@ TSync ==
          c == IF kind = "sched" /\ hasCanon THEN Rec[CanonMap[<<histId, i>>]] ELSE r
          cmp == kind = "sched" /\ ~ov
          strictClaims == LiveOf(r.R.claims) = LiveOf(c.R.claims)
-         waivedClaims == LiveNoFunding(r.R.claims) = LiveNoFunding(c.R.claims)
+         waivedClaims == ToSet(LiveOf(r.R.claims)) \subseteq ToSet(LiveOf(c.R.claims))
          hasDirect == r.key \in DOMAIN DirectMap /\ kind # "direct" /\ ~ov /\ ~Shallower /\ ~reloaded
          d == IF hasDirect THEN Rec[DirectMap[r.key]] ELSE r
          dClaims == ToSet(LiveOf(d.R.claims))
      IN
      /\ over' = ov
      /\ ever' = ever \cup NowBuried
-     /\ (cmp /\ WaiveFundingClaim /\ ~strictClaims /\ waivedClaims) => PrintT(<<"WAIVED", r.run, i>>)
+     /\ (cmp /\ WaiveLostClaims /\ ~strictClaims /\ waivedClaims) => PrintT(<<"WAIVED", r.run, i>>)
      /\ v' = [hist |-> (kind = "sched" => hasCanon),
               best |-> (BestBlockIs(f.mbest) /\ BestBlockIs(f.gbest)),
               funding |-> (ov \/ f.conf < 0 \/ FundingDepthIs(f.conf, baseConf)),
@@ -180,7 +178,7 @@ TSync ==
               irrev |-> (ov \/ IrreversibleOK(f.irrev, failTrig, ever)),
               aBal |-> (cmp => r.R.bal = c.R.bal),
               aRel |-> (cmp => (r.R.mrel = c.R.mrel /\ r.R.grel = c.R.grel)),
-              aClaims |-> (cmp => IF WaiveFundingClaim THEN waivedClaims ELSE strictClaims),
+              aClaims |-> (cmp => IF WaiveLostClaims THEN waivedClaims ELSE strictClaims),
               aChans |-> (cmp => r.R.chans = c.R.chans),
               aEvents |-> (cmp => r.S.evs = c.S.evs),
               aMsgs |-> (cmp => r.S.msgs = c.S.msgs),
@@ -189,8 +187,7 @@ TSync ==
                              /\ Pairs(f.mrel) = Pairs(d.f.mrel)
                              \* everything a fresh delivery of this chain claims is (again) being claimed; a
                              \* claim made while the chain was higher may legitimately still be pending
-                             /\ (IF WaiveFundingClaim THEN {g \in dClaims : ~SpendsFunding(g)} \subseteq ToSet(r.R.claims)
-                                 ELSE dClaims \subseteq ToSet(r.R.claims))
+                             /\ ((WaiveLostClaims /\ kind = "sched") \/ dClaims \subseteq ToSet(r.R.claims))
                              /\ (r.R.chans # <<>> => (r.R.chans = d.R.chans /\ Pairs(f.grel) = Pairs(d.f.grel))))]
   /\ phase' = "idle"
   /\ UNCHANGED <<hvars, target, tp, cf, ifc, gv, kind, histId, failTrig, baseConf, inputs, reloaded>>
